@@ -185,6 +185,9 @@ func (p *proxy) handleAgentRequest(w http.ResponseWriter, r *http.Request, backe
 }
 
 func (p *proxy) newID() string {
+	// rand.Rand is not safe for concurrent use and ServeHTTP runs concurrently.
+	p.Lock()
+	defer p.Unlock()
 	sum := sha256.Sum256([]byte(fmt.Sprintf("%d", p.randGenerator.Int63())))
 	return fmt.Sprintf("%x", sum)
 }
